@@ -4,8 +4,8 @@ from . import numgen
 
 MANIFEST = dict(
    technique="Lean 4 proof (exactness of compareNumeric/cmpIntFloat/cmpInts/multipleOfInts over all of Int and all dyadic floats; the float epsilon rule bounded on both sides) + translator (go/ast over pkg/validate, internal/checks, types/integer.go, types/float.go -> Gen/NumDispatch.lean, regenerated on every run: switch tables, guards, constants, method wiring, and the BODIES of cmpInts/multipleOfInts/cmpFloats as terms of a small expression language with Go's int64/uint64 machine semantics; the model is proved equal to the interpreted tables) + differential correspondence of the model against pkg/validate and real numeric schemas",
-   text="Theorems c16_cmp / c16_int_cmp / c16_int_float_cmp / c16_multiple_int prove, for every operand pair of every Go numeric kind, that the transcribed comparison and integer-multiple algorithms equal the mathematical relation (NaN unordered). C16M.c16_float_methods_exact / c16_int_methods_exact state it method by method over the regenerated method tables (Min, Max, Gt, Gte, Lt, Lte, Positive, Negative, NonNegative, NonPositive, Safe) for every input, negative zero, infinities and NaN included (c16_float_specials). The model is tied to /repo (a) by translation: toNum_table, compareNumeric_table, cmpIntFloat_table, cmpOps_table, methods_table and C16A.cmpFloats_table / cmpInts_table / multipleOfInts_table (the regenerated bodies, interpreted, compute the model for every operand pair) are proved over what the translator extracts from the source, so a re-routed arm, an edited range constant, a changed sign test, a dropped conversion or a re-wired schema method changes a proof obligation; (b) by running both on exhaustive 8-bit (thorough: 16-bit) enumerations and a 2^k-boundary grid over all 169 kind pairs (uintptr included), directly and through real schemas, plus named-type, complex and *big.Int operands through the coerce.ToFloat64 path.",
-   note="Trusted: Lean kernel; axioms propext/Classical.choice/Quot.sound only; the Go harness, the translator harness/numgen and the comparer; Go float64 operators and math.Trunc being IEEE-754. Float MultipleOf (documented epsilon rule) is modelled exactly on dyadic floats (Model/NumFloat.lean) and held to C16F: never rejects an exact multiple (c16_float_multiple_complete), and whatever it accepts is within eps (up to one rounding: relative 2^-53, absolute 2^-1075) of a multiple (c16_float_multiple_sound_bound, remainder_is_distance) - not to exact divisibility. Operands toNum does not hold (complex, *big.Int, named types) follow the code's coerce.ToFloat64 path (model in Drv/C16.lean, generated cases only); *big.Int bounds are therefore compared through float64 (BigInt is not one of C16's schema types; fix proposed in pending/C16-bigint-exact-compare).",
+   text="Theorems c16_cmp / c16_int_cmp / c16_int_float_cmp / c16_multiple_int prove, for every operand pair of every Go numeric kind, that the transcribed comparison and integer-multiple algorithms equal the mathematical relation (NaN unordered). C16M.c16_float_methods_exact / c16_int_methods_exact state it method by method over the regenerated method tables (Min, Max, Gt, Gte, Lt, Lte, Positive, Negative, NonNegative, NonPositive, Safe) for every input, negative zero, infinities and NaN included (c16_float_specials). The model is tied to /repo (a) by translation: toNum_table, compareNumeric_table, cmpIntFloat_table, cmpOps_table, methods_table and C16A.cmpFloats_table / cmpInts_table / multipleOfInts_table (the regenerated bodies, interpreted, compute the model for every operand pair) are proved over what the translator extracts from the source, so a re-routed arm, an edited range constant, a changed sign test, a dropped conversion or a re-wired schema method changes a proof obligation; (b) by running both on exhaustive 8-bit (thorough: 16-bit) enumerations and a 2^k-boundary grid over all 169 kind pairs (uintptr included), directly and through real schemas, plus *big.Int operands and the BigInt schema (every comparison method, sign shorthands, MultipleOf; values and bounds around 2^53, 2^63, 2^64, 2^1024, 10^30) judged exactly, and named-type / complex operands through the coerce.ToFloat64 path.",
+   note="Trusted: Lean kernel; axioms propext/Classical.choice/Quot.sound only; the Go harness, the translator harness/numgen and the comparer; Go float64 operators and math.Trunc being IEEE-754. Float MultipleOf (documented epsilon rule) is modelled exactly on dyadic floats (Model/NumFloat.lean) and held to C16F: never rejects an exact multiple (c16_float_multiple_complete), and whatever it accepts is within eps (up to one rounding: relative 2^-53, absolute 2^-1075) of a multiple (c16_float_multiple_sound_bound, remainder_is_distance) - not to exact divisibility. Big integers (*big.Int operands, the BigInt schema's Min/Max/Gt/Gte/Lt/Lte, sign shorthands and MultipleOf) are judged against the comparison / divisibility of the integers (spec oracle specXcmp / specXmul; the code compares them with big.Int.Cmp / big.Float.Cmp / big.Int.Rem since 4945548; the model of that path is Drv/C16.lean cmpBigOp, tied by generated cases, not by a translator). Complex and named-type operands follow the code's coerce.ToFloat64 path and have no specification (model observation only).",
    design="DESIGN.md §5 C16; notes/C16.md")
 
 MODULES = ["Gozod.Proofs.C16", "Gozod.Proofs.C16Dispatch", "Gozod.Proofs.C16Float", "Gozod.Proofs.C16Arms", "Gozod.Proofs.C16FloatBound", "Gozod.Proofs.C16Methods"]
@@ -40,13 +40,17 @@ def key(op, impl, M, S):
         ka, a, kb, b = t[3], t[4], t[5], t[6]
     else:
         ka, a, kb, b = t[2], t[3], t[4], t[5]
-    fl = lambda k: "float" if k.startswith("f") else ("ext" if k in ("nx", "cx", "big") else "int")
+    fl = lambda k: "float" if k.startswith("f") else ("big" if k == "big" else ("ext" if k in ("nx", "cx") else "int"))
     big = ""
     if fl(ka) == "int" and fl(kb) == "int":
         big = ":above2^53" if max(abs(int(a)), abs(int(b))) > 2 ** 53 else ":small"
     return "%s:%s-vs-%s%s:%s" % (t[1], fl(ka), fl(kb), big, how)
 
 def describe(op):
+    t = C.op_body(op).split(" ")
+    if t[1] in ("xcmp", "xmul") and "big" in t:
+        return ("big <n> = a *big.Int; direct = validate.<Op>(value, bound) / validate.MultipleOf(value, divisor); "
+                "schema:<variant>:false:<Method> = gozod.BigInt[Ptr]().<Method>(bound *big.Int).Parse(value *big.Int) (sign shorthands: bound 0)")
     return "see harness/c16.go; direct = validate.<Op>(value, bound); schema:<variant>:<ptrInput>:<Method> = gozod.<Kind>[Ptr]().<Method>(bound).Parse(value)"
 
 def run(res):
@@ -66,7 +70,8 @@ def run(res):
         "grid x grid (0, +-1, +-2^k, +-2^k+-1, type limits and neighbours, float neighbours of 2^k, +-0, +-Inf, NaN) over all 13x13 kind pairs (uintptr included) "
         "directly against pkg/validate; and through real schemas (value/pointer constructors, value/pointer inputs, "
         "Gt/Gte/Lt/Lte/Min/Max/Positive/Negative/NonNegative/NonPositive/MultipleOf/Step); xcmp/xmul: named-type, complex64/128 and *big.Int operands "
-        "against every built-in kind, both orders, every operator and MultipleOf. distinct = distinct op lines.")
+        "against every built-in kind, both orders, every operator and MultipleOf; BigInt schemas (value/pointer constructor) with a *big.Int bound next to the value, "
+        "every method incl. sign shorthands and MultipleOf, values 2^e+-{0,1,2} for e up to 2000. distinct = distinct op lines.")
     res.assumptions += [
         "Go's float64 <, > and math.Trunc are IEEE-754 (F.cmp / truncInt model them on exact dyadic rationals)",
         "float MultipleOf keeps the documented epsilon rule and is outside C16's exact-divisibility clause; it is modelled exactly (Model/NumFloat.lean: fmod exact, product and difference rounded to nearest-even) and compared case by case (fmul lines: the model observation is the oracle)",
